@@ -39,6 +39,7 @@ type Router struct {
 	statePath   string
 	services    *ServiceMap
 	serviceLock sync.RWMutex
+	stateLock   sync.Mutex
 }
 
 type ServiceDescription struct {
@@ -333,6 +334,13 @@ func (r *Router) findOrCreateService(name string, options ServiceOptions, target
 
 func (r *Router) saveStateSnapshot() error {
 	verifYield("snap_begin", r)
+	// One snapshot at a time, written to the side and renamed into place: the
+	// state file is always a complete snapshot (never empty or truncated, even
+	// if the process dies mid-write), and a snapshot listed earlier can never
+	// overwrite one that was listed later.
+	r.stateLock.Lock()
+	defer r.stateLock.Unlock()
+
 	services := []*Service{}
 	r.withReadLock(func() error {
 		for _, service := range r.services.All() {
@@ -342,14 +350,22 @@ func (r *Router) saveStateSnapshot() error {
 	})
 
 	verifYield("snap_listed", r)
-	f, err := os.Create(r.statePath)
+	tmpPath := r.statePath + ".tmp"
+	f, err := os.Create(tmpPath)
 	if err != nil {
 		return err
 	}
 
 	verifYield("snap_created", r)
 	err = json.NewEncoder(f).Encode(services)
+	if closeErr := f.Close(); err == nil {
+		err = closeErr
+	}
+	if err == nil {
+		err = os.Rename(tmpPath, r.statePath)
+	}
 	if err != nil {
+		os.Remove(tmpPath)
 		slog.Error("Unable to save state", "error", err, "path", r.statePath)
 		return err
 	}
